@@ -158,6 +158,16 @@ def scratch():
     return _scratch[1]
 
 
+def scratch_shared():
+    """Scratch directory of the check driver, shared with its forked workers."""
+    d = os.environ.get("VERIF_SHARED_SCRATCH")
+    if d and os.path.isdir(d):
+        return d
+    d = scratch()
+    os.environ["VERIF_SHARED_SCRATCH"] = d
+    return d
+
+
 def cc(src_text, out, flags=(), shared=True, lang="c"):
     """Compile generated reference C with gcc.  Failure is an infrastructure error."""
     srcfn = out + "." + lang
